@@ -65,6 +65,17 @@ claim("C03",
       TRUST + "; RENAME outside the property's precondition only has to make the old name disappear; multi-pair RENAME is C11's",
       "DESIGN.md section 4 (C03)")
 
+claim("C08",
+      "Per corpus statement (kind x FROM shape x query form, nesting <=2; thorough: seeded depth-4 compositions, 3-char and mixed "
+      "length vectors, 5 more dialects) one run of the real LineageRunner with ALL statement-local names (aliases, derived aliases, CTE "
+      "names) and a budget of base names FREE (no distinctness beyond SQL validity) is compared with the twin run whose local names are "
+      "fresh constants; z3 decides over all namings that sources, targets, intermediates and end-to-end column pairs are equal; "
+      "a second family flips the optional AS. Counterexamples (a naming) are rendered to two SQL texts and replayed on the unmodified "
+      "library. Bounded: <=5 (quick) / <=7 (thorough) free names per instance, 2-char bodies (quick).",
+      TRUST + "; parser boundary stubbed (split, sqlfluff parse); one open finding (cross-scope alias capture) reported as KNOWN-FINDING; "
+      "three defects found here were repaired in /repo (alias precedence, mixed comma join, subquery joins leaking into the outer scope)",
+      "DESIGN.md section 4 (C08)")
+
 ALL = ["C%02d" % i for i in range(1, 19)]
 
 
